@@ -109,11 +109,18 @@ def run_case(case: dict) -> dict:
     by_id = {v: k for k, v in ids.items()}
     groups = oracles.Groups(run.commits)
     tl = oracles.Timeline(run.audit)
-    # effective jumps: JumpToStage marks whose commit group re-armed / started the target
-    jump_groups = []
+    # effective jumps: commit groups of a JumpToStage handling (recognised by the handler tag
+    # of the commit or by the processed mark it carries - whichever the code uses) that
+    # re-armed / started the target
+    jump_set = set()
     for a in run.audit:
         if a["kind"] == "mark" and a["op"] == "ins" and a["b"] == "JumpToStage":
-            jump_groups.append(groups.of(a["seq"]))
+            jump_set.add(groups.of(a["seq"]))
+    for g in range(len(groups.commits)):
+        t = groups.tag(g)
+        if t and t[0] == "JumpToStage":
+            jump_set.add(g)
+    jump_groups = sorted(jump_set)
     rows_by_group: dict[int, list] = {}
     for a in run.audit:
         if a["kind"] == "status" and a["op"] == "stage":
